@@ -772,7 +772,37 @@ pub fn check_c07(ctx: &mut Ctx, cfg: &Cfg, how: How) {
     ctx.sample_sparse(30_011, || J::obj().set("cfg", cfg.shape()).set("image", hex(&bytes[..bytes.len().min(48)])));
 }
 
+pub fn check_c07_odd(ctx: &mut Ctx, mc: u8, count: u8, padding: u8, body: usize) {
+    ctx.eval();
+    let n = 4 + body + padding as usize;
+    let mut buf = vec![0u8; n];
+    let Ok(Some((_, back))) = call(|| crate::custom::odd_header(mc, padding, count, &mut buf)) else { return };
+    let want = enc::enc(&Cfg::Unknown { pt: crate::custom::ODD_PT, count, data: vec![0; body], padding }).unwrap_or_default();
+    if buf != want || back != Ok(count) {
+        ctx.violate(
+            "image",
+            "third-party(MAX_COUNT override)",
+            "header",
+            || J::obj().set("kind", "c07-odd").set("monitor", "c07-odd").set("max_count", mc).set("count", count).set("padding", padding).set("body", body),
+            format!("{} and count {count} read back", hex(&want[..want.len().min(16)])),
+            format!("{} and {back:?}", hex(&buf[..buf.len().min(16)])),
+        );
+    }
+}
+
 pub fn run_c07(ctx: &mut Ctx, shard: usize, nshards: usize) {
+    // writers of third-party packet types that override the defaulted `MAX_COUNT` (custom::Odd): the image is the
+    // model's image of an unknown packet with that count, for every legal count of the type
+    if shard == 0 {
+        for mc in [4u8, 10, 16, 30] {
+            for count in 0..=mc {
+                for (padding, body) in [(0u8, 0usize), (4, 8), (252, 0)] {
+                    check_c07_odd(ctx, mc, count, padding, body);
+                }
+            }
+        }
+        ctx.class("c07:third-party-max-count-override");
+    }
     workload(ctx, shard, nshards, 0xc07, false, 40_000, 1_200_000, &mut |ctx, c, h| check_c07(ctx, c, h));
 }
 pub fn floor_c07(ctx: &Ctx) -> Vec<(String, bool)> {
